@@ -22,12 +22,20 @@ def is_callable_spec(spec: dict[str, Any]) -> bool:
 
 def ref_eval(spec: dict[str, Any], step: int) -> Any:
     """Reference evaluation of a callable spec, from the statements."""
-    if spec['f'] == 'cycle':
+    if spec['f'] in ('cycle', 'ext'):
         v = spec['vals']
         return v[step % len(v)]
     if spec['f'] == 'expdecay':
         return min(1.0 - 1.0 / max(step, 1), spec['cap'])
     raise ValueError(spec)
+
+
+class External:
+    """State outside K-FAC that a callable hyper-parameter may read (the
+    documented `lr=lambda x: optimizer.param_groups[0]['lr']` pattern)."""
+
+    def __init__(self) -> None:
+        self.it = 0
 
 
 class Recording:
@@ -44,10 +52,13 @@ class Recording:
         return self.fn(*args, **kwargs)
 
 
-def build(name: str, spec: dict[str, Any]) -> Any:
+def build(name: str, spec: dict[str, Any], ext: Any = None) -> Any:
     """Value to pass to the preconditioner constructor."""
     if 'c' in spec:
         return spec['c']
+    if spec['f'] == 'ext':
+        vals = list(spec['vals'])
+        return Recording(name, lambda s: vals[ext.it % len(vals)])
     if spec['f'] == 'cycle':
         vals = list(spec['vals'])
         return Recording(name, lambda s: vals[s % len(vals)])
